@@ -50,12 +50,56 @@ func stateOps(root []*ssa.Function, a *svcAnchors) (ops []stateOp, nonAtomic []c
 		// call sites, and each call site stands for the transition in its caller (for a CAS the
 		// helper must hand the swap's result back as its own)
 		if lifted := liftStateOp(root, op, args); lifted != nil {
-			ops = append(ops, lifted...)
+			for _, lo := range lifted {
+				ops = append(ops, liftThroughWrappers(root, lo, 0)...)
+			}
 			continue
 		}
 		ops = append(ops, op)
 	}
 	return
+}
+
+// liftThroughWrappers: an operation with known constants that sits in a wrapper
+// method doing nothing else (`func (s *S) beginStop() bool { return
+// s.state.transition(started, stopping) }`) stands for the operation in each of
+// the wrapper's callers.
+func liftThroughWrappers(root []*ssa.Function, op stateOp, depth int) []stateOp {
+	fn := op.Fn
+	if depth > 3 || fn.Parent() != nil || len(fn.Blocks) != 1 || (fn.Object() != nil && fn.Object().Exported()) {
+		return []stateOp{op}
+	}
+	// the single block: (loads of the receiver's members), the call, return [its value]
+	ci, _ := op.Instr.(ssa.CallInstruction)
+	if ci == nil {
+		return []stateOp{op}
+	}
+	for _, in := range fn.Blocks[0].Instrs {
+		switch x := in.(type) {
+		case *ssa.FieldAddr, *ssa.UnOp, *ssa.DebugRef:
+		case *ssa.Call:
+			if ssa.Instruction(x) != op.Instr {
+				return []stateOp{op}
+			}
+		case *ssa.Return:
+			if len(x.Results) > 1 || (len(x.Results) == 1 && x.Results[0] != ci.Value()) {
+				return []stateOp{op}
+			}
+		default:
+			return []stateOp{op}
+		}
+	}
+	callers := callsTo(root, fn)
+	if len(callers) == 0 {
+		return []stateOp{op}
+	}
+	var out []stateOp
+	for _, c := range callers {
+		o := op
+		o.Fn, o.Instr = c.Parent(), c
+		out = append(out, liftThroughWrappers(root, o, depth+1)...)
+	}
+	return out
 }
 
 func liftStateOp(root []*ssa.Function, op stateOp, args []ssa.Value) []stateOp {
@@ -292,6 +336,30 @@ func c03(r *core.Run) {
 					c, isC := core.ConstInt(bo.Y)
 					if !isC {
 						c, isC = core.ConstInt(bo.X)
+					}
+					if !isC {
+						// `is(st)`: compared with a parameter to which every caller passes the constant
+						for _, side := range []ssa.Value{bo.X, bo.Y} {
+							prm, isPrm := side.(*ssa.Parameter)
+							if !isPrm {
+								continue
+							}
+							pi, all, n := -1, true, 0
+							for i, q := range prm.Parent().Params {
+								if q == prm {
+									pi = i
+								}
+							}
+							for _, cs := range callsTo(root, prm.Parent()) {
+								n++
+								if k, ok := core.ConstInt(cs.Common().Args[pi]); !ok || k != started {
+									all = false
+								}
+							}
+							if all && n > 0 {
+								c, isC = started, true
+							}
+						}
 					}
 					if !isC || c != started || (bo.Op != token.EQL && bo.Op != token.NEQ) {
 						good = false
@@ -663,6 +731,41 @@ func c03(r *core.Run) {
 			}
 			r.Check(ok, "S5", core.FuncName(fn), "started-check-dom-call:"+core.FuncName(cal), p.InstrPos(c), "publishing call is dominated by the state==started edge", "publishing entry point uses the connection without a dominating started-check: after Shutdown it dereferences a cleared connection (panic)")
 		}
+	}
+
+	// serve itself: once it has published the started state a Shutdown is accepted, so what serve
+	// publishes afterwards (the initial system.reset) must go through a state-checked entry point
+	// like everybody else's publishes - an unchecked publisher called here uses a connection that a
+	// concurrent Shutdown may already have closed and cleared
+	{
+		nServe := 0
+		for _, h := range p.Helpers(a.Serve) {
+			if !p.Within(h, a.Serve) {
+				continue // shared with other callers: judged at the call that leaves serve's own unit
+			}
+			for _, c := range core.Calls(h) {
+				cal := c.Common().StaticCallee()
+				if cal == nil || !mayPub[cal] || cal == a.Enqueue || p.Within(cal, a.Serve) {
+					continue
+				}
+				if cal.Object() != nil && cal.Object().Exported() && cal.Signature.Recv() != nil && core.TypeName(cal.Signature.Recv().Type()) == a.S {
+					nServe++
+					continue // an exported method, judged itself above
+				}
+				nServe++
+				ok := false
+				for _, ed := range ctxEdges(p, c, a.Serve, 0) {
+					if startedEdge(ed, started) {
+						ok = true
+					}
+				}
+				if !ok && p.IsPrivateHelper(cal) {
+					ok = helperChecksStarted(p, cal, mayPub, func(ed edgeCond) bool { return startedEdge(ed, started) }, a.Enqueue, 0)
+				}
+				r.Check(ok, "S5", core.FuncName(h), "serve-publishes-through-started-check:"+core.FuncName(cal), p.InstrPos(c), "publishing call is dominated by the state==started edge", "serve publishes through "+core.FuncName(cal)+", which does not check the state: a Shutdown accepted after serve declared the service started has closed and cleared the connection by then (nil dereference in the goroutine blocked in Serve, or a publish on a closed connection)")
+			}
+		}
+		r.Analysed["serve_publishing_calls"] = nServe
 	}
 
 	// ---- N0 --------------------------------------------------------------
